@@ -34,8 +34,20 @@ def is_private(name):
     return name.startswith("_") and not (name.startswith("__") and name.endswith("__"))
 
 
+_OWN = {}
+
+
 def own_nodes(fn):
     """Nodes of a function body in source order, nested function / lambda / class bodies excluded."""
+    hit = _OWN.get(id(fn))
+    if hit is not None and hit[0] is fn:
+        return hit[1]
+    out = _own_nodes(fn)
+    _OWN[id(fn)] = (fn, out)
+    return out
+
+
+def _own_nodes(fn):
     out, stack = [], list(reversed(fn.body))
     while stack:
         n = stack.pop()
@@ -86,6 +98,27 @@ class Pkg:
                 self.by_modpath[mp[:-len(".__init__")]] = f
         self._bind_cache = {}
         self._mf_cache = {}
+        self.imports = {f: self._import_table(f, m) for f, m in self.mods.items()}
+
+    @staticmethod
+    def _import_table(f, m):
+        """local name -> dotted origin, relative imports resolved against the file's package (`from . import zip_bomb`,
+        `from .zip_bomb import open_zipfile`, `from ..util import zip_bomb as zb`)."""
+        pkg_parts = f[:-3].split("/")[:-1]
+        out = {}
+        for node in ast.walk(m.tree):
+            if isinstance(node, ast.Import):
+                for a in node.names:
+                    out[a.asname or a.name.split(".")[0]] = a.name if a.asname else a.name.split(".")[0]
+            elif isinstance(node, ast.ImportFrom):
+                if node.level:
+                    base = pkg_parts[:len(pkg_parts) - (node.level - 1)] if node.level - 1 <= len(pkg_parts) else []
+                    mod = ".".join(base + ([node.module] if node.module else []))
+                else:
+                    mod = node.module or ""
+                for a in node.names:
+                    out[a.asname or a.name] = f"{mod}.{a.name}" if mod else a.name
+        return out
 
     # ---------------------------------------------------------------- names --
     def mod_file(self, modpath):
@@ -106,7 +139,7 @@ class Pkg:
             return ("fn", (f, name))
         if name in m.classes:
             return ("class", (f, name))
-        origin = m.imports.get(name)
+        origin = self.imports[f].get(name)
         if origin and "." in origin:
             modpath, _, nm = origin.rpartition(".")
             f2 = self.mod_file(modpath)
@@ -120,7 +153,7 @@ class Pkg:
         if not d:
             return ""
         head, _, rest = d.partition(".")
-        origin = self.mods[f].imports.get(head)
+        origin = self.imports[f].get(head)
         if origin:
             return origin + ("." + rest if rest else "")
         return d
@@ -149,7 +182,7 @@ class Pkg:
         d = dotted(e)
         if d:
             head, _, rest = d.partition(".")
-            origin = self.mods[f].imports.get(head)
+            origin = self.imports[f].get(head)
             if origin:
                 full = origin + "." + rest
                 modpath, _, nm = full.rpartition(".")
@@ -229,28 +262,39 @@ class Pkg:
             for q, node in m.functions.items():
                 yield f, q, node
 
+    def _index(self):
+        if getattr(self, "_calls_by_name", None) is None:
+            self._calls_by_name, self._value_names = {}, {}
+            for f, q, node in self.all_functions():
+                for n in own_nodes(node):
+                    if isinstance(n, ast.Call):
+                        nm = (dotted(n.func) or "").split(".")[-1]
+                        if nm:
+                            self._calls_by_name.setdefault(nm, []).append((f, q, n))
+            for f, m in self.mods.items():
+                callees = {id(n.func) for n in ast.walk(m.tree) if isinstance(n, ast.Call)}
+                for n in ast.walk(m.tree):
+                    if isinstance(n, ast.Name) and isinstance(n.ctx, ast.Load) and id(n) not in callees:
+                        self._value_names.setdefault(n.id, set()).add(f)
+
     def call_sites(self, fref):
         """[(file, qual, call, bound)] of the calls in the package that resolve to function `fref`."""
+        self._index()
         out = []
-        nm = fref[1].split(".")[-1]
-        for f, q, node in self.all_functions():
-            for n in own_nodes(node):
-                if isinstance(n, ast.Call) and (dotted(n.func) or "").split(".")[-1] == nm:
-                    r = self.resolve_call(f, q, n)
-                    if r and r[0] == "fn" and r[1] == fref:
-                        out.append((f, q, n, r[2]))
+        for (f, q, n) in self._calls_by_name.get(fref[1].split(".")[-1], []):
+            r = self.resolve_call(f, q, n)
+            if r and r[0] == "fn" and r[1] == fref:
+                out.append((f, q, n, r[2]))
         return out
 
     def referenced_as_value(self, fref):
         """Is the function mentioned other than as the callee of a call (callback, alias, table entry)?"""
+        self._index()
         nm = fref[1].split(".")[-1]
-        for f, m in self.mods.items():
-            callees = {id(n.func) for n in ast.walk(m.tree) if isinstance(n, ast.Call)}
-            for n in ast.walk(m.tree):
-                if isinstance(n, ast.Name) and n.id == nm and isinstance(n.ctx, ast.Load) and id(n) not in callees:
-                    r = self.lookup(f, nm)
-                    if r and r[1] == fref:
-                        return True
+        for f in self._value_names.get(nm, ()):
+            r = self.lookup(f, nm)
+            if r and r[1] == fref:
+                return True
         return False
 
     # ------------------------------------------------------------- bindings --
@@ -395,7 +439,7 @@ class Handles:
             return None
         _seen.add(key)
         try:
-            stores = self.attr_stores(cref).get(attr, [])
+            stores = [x for x in self.attr_stores(cref).get(attr, []) if not (isinstance(x[2], ast.Constant) and x[2].value is None)]
             kinds = {self.classify(cf, q, v) for (cf, q, v, _n) in stores}
         finally:
             _seen.discard(key)
@@ -593,8 +637,12 @@ def policy(repo, tier):
         zb_fns = set(pkg.mods[ZB].functions) if ZB in pkg.mods else set()
         leaky = {nm for nm in zb_fns if nm not in SANCTIONED and H.returns((ZB, nm)) in ("raw", "mixed")}
         for f, m in pkg.mods.items():
+            nodes = list(ast.walk(m.tree))
+            if f not in ALLOWED_ZIPFILE_CTOR and not any(o.split(".")[0] in ("zipfile", "shutil") or pkg.mod_file(o) == ZB or
+                                                         pkg.mod_file(o.rpartition(".")[0]) == ZB for o in pkg.imports[f].values()):
+                continue          # neither zipfile / shutil nor the guard module is imported here
             ann = set()
-            for n in ast.walk(m.tree):
+            for n in nodes:
                 anns = []
                 if isinstance(n, (ast.arg, ast.AnnAssign)) and n.annotation is not None:
                     anns.append(n.annotation)
@@ -602,10 +650,10 @@ def policy(repo, tier):
                     anns.append(n.returns)
                 for a_ in anns:
                     ann |= {id(x) for x in ast.walk(a_)}
-            callee_ids = {id(n.func) for n in ast.walk(m.tree) if isinstance(n, ast.Call)}
-            inner = {id(n.value) for n in ast.walk(m.tree) if isinstance(n, ast.Attribute)}     # not the head of a longer chain
-            zb_names = {nm for nm, origin in m.imports.items() if pkg.mod_file(origin) == ZB}
-            for n in ast.walk(m.tree):
+            callee_ids = {id(n.func) for n in nodes if isinstance(n, ast.Call)}
+            inner = {id(n.value) for n in nodes if isinstance(n, ast.Attribute)}     # not the head of a longer chain
+            zb_names = {nm for nm, origin in pkg.imports[f].items() if pkg.mod_file(origin) == ZB}
+            for n in nodes:
                 if isinstance(n, ast.Call):
                     c = pkg.canonical(f, n.func)
                     if c in ZIP_CTORS or c in UNPACKERS:
@@ -648,6 +696,8 @@ def policy(repo, tier):
             stores = H.attr_stores(cref)
             for attr in sorted(attrs):
                 for (cf, q, v, stmt) in stores.get(attr, []):
+                    if isinstance(v, ast.Constant) and v.value is None:
+                        continue          # dropping the handle (close / reset) stores no container
                     k = H.classify(cf, q, v)
                     if k == "validated":
                         n_ok += 1
@@ -778,14 +828,14 @@ def policy(repo, tier):
                     if k is None and isinstance(h, ast.Name) and h.id in params_of(node):
                         k = _param_kind(pkg, H, (cf, cq), h.id)
                     if k == "validated":
-                        n_ok += 1 if h is recv else 0
+                        n_ok += 1         # member access on, or a reader handed, a validated handle
                     elif k == "raw":
                         if _dominated_by_validate(pkg, cf, cq, node, h, n):
-                            n_ok += 1 if h is recv else 0
+                            n_ok += 1
                             continue
                         vals = _validator_calls(pkg, H, cf, cq, node, fam)
                         (soft if vals else bad).append(f"{cf}:{n.lineno} {cq}: `{ast.unparse(n)[:70]}` uses an unvalidated container")
-        detail = "; ".join(bad + soft) or f"{n_ok} member read(s) through a validated handle"
+        detail = "; ".join(bad + soft) or f"{n_ok} use(s) of a validated handle (member access / handed to a reader)"
         if bad:
             return _obl(oid5, False, True, detail, "encryption.py", "typestate")
         if soft or n_ok < 1:
@@ -926,11 +976,14 @@ def _payload_key(pkg, f, node, e, depth=0):
         return _payload_key(pkg, f, node, e.args[0], depth + 1)
     if isinstance(e, ast.NamedExpr):
         return _payload_key(pkg, f, node, e.value, depth + 1)
+    if isinstance(e, ast.Call) and isinstance(e.func, ast.Attribute) and e.func.attr == "getvalue" and not e.args:
+        return _payload_key(pkg, f, node, e.func.value, depth + 1)          # the whole content of the stream
     if isinstance(e, ast.Name):
         bs = pkg.bindings(node).get(e.id, [])
         if len(bs) == 1 and bs[0] is not None:
             b = bs[0]
-            if isinstance(b, ast.Name) or (isinstance(b, ast.Call) and pkg.canonical(f, b.func) in ("io.BytesIO", "BytesIO")):
+            if isinstance(b, ast.Name) or (isinstance(b, ast.Call) and (pkg.canonical(f, b.func) in ("io.BytesIO", "BytesIO") or
+                                                                        (isinstance(b.func, ast.Attribute) and b.func.attr == "getvalue"))):
                 k = _payload_key(pkg, f, node, b, depth + 1)
                 if k is not None:
                     return k
@@ -1210,7 +1263,8 @@ def propagation(repo, tier):
     is_odf_encrypted, the read_* extractors) the exception leaves the calling function unchanged: every enclosing `try` whose
     handler list catches it re-raises it as it is, no `finally` returns, no `suppress` swallows it.  Private helpers of the
     same module (functions, methods reached through `self`, constructors of private classes) are analysed in place of
-    their call, so the obligations are keyed by (function, public callee, ordinal) and survive helper extraction / inlining."""
+    their call; there is one obligation per function the error can leave (all its call sites), so the ids survive helper
+    extraction / inlining and re-routing through another guarded function."""
     from pyvc.exctypes import Universe
     pkg = Pkg(repo)
     uni = Universe(repo)
@@ -1259,7 +1313,10 @@ def propagation(repo, tier):
         for n in own_nodes(node):
             if not isinstance(n, ast.Call):
                 continue
-            t = target_of(f, q, n)
+            try:
+                t = target_of(f, q, n)
+            except Exception:  # noqa -- an unresolvable shape is not a call of a known function
+                t = None
             if t is None:
                 continue
             ident, name, exp, ctx = t
@@ -1323,24 +1380,38 @@ def propagation(repo, tier):
             for k, (frames, call, ident, name) in enumerate(lst):
                 if ident not in bomb or (fref, k) in results:
                     continue
-                v = verdict(frames)
+                try:
+                    v = verdict(frames)
+                except Exception as e:  # noqa
+                    v = ("unknown", f"handler analysis does not handle this shape ({type(e).__name__}: {e})")
                 results[(fref, k)] = (name, v, frames)
                 if v[0] != "bad" and fref not in bomb:
                     bomb.add(fref)
                     changed = True
     obls = []
-    ordinals = {}
+    per_fn = {}
     for (fref, k) in sorted(results, key=lambda x: (x[0], x[1])):
         if fref in expanded_somewhere:
             continue            # analysed in place at every caller of this private helper
-        name, (status, why), frames = results[(fref, k)]
+        per_fn.setdefault(fref, []).append(results[(fref, k)])
+    n_sites = 0
+    for fref, lst in sorted(per_fn.items()):
+        # one exceptional postcondition per function: the error of EVERY call site in it (private helpers analysed in place)
+        # leaves the function unchanged.  The id does not mention callees or ordinals, so re-routing a call through another
+        # guarded function, extracting or inlining helpers keeps it.
         f, q = fref
-        j = ordinals.get((f, q, name), 0)
-        ordinals[(f, q, name)] = j + 1
-        oid = f"C11/{f.split('/')[-1]}::{q}/exc-ensures#zip-bomb-error-of-{name}@{j}-propagates-unchanged"
-        via = " via " + " -> ".join(dotted(c.func) or "?" for (_f, _n, c) in frames[:-1]) if len(frames) > 1 else ""
-        line = frames[0][2].lineno
-        o = ground_obligation(oid, status == "ok", why or f"line {line}{via}", f"{f}:{line}", kind="exc-ensures", definite=(status == "bad"))
+        n_sites += len(lst)
+        oid = f"C11/{f.split('/')[-1]}::{q}/exc-ensures#zip-bomb-error-propagates-unchanged"
+        stati = [v[0] for (_n, v, _fr) in lst]
+        status = "bad" if "bad" in stati else ("unknown" if "unknown" in stati else "ok")
+        descr = []
+        for (name, (st_, why), frames) in lst:
+            via = " via " + " -> ".join(dotted(c.func) or "?" for (_f, _n, c) in frames[:-1]) if len(frames) > 1 else ""
+            descr.append((why + " " if why else "") + f"[{name} at line {frames[0][2].lineno}{via}: {st_}]")
+        bad_first = sorted(descr, key=lambda d: d.endswith(": ok]"))
+        line = lst[0][2][0][2].lineno
+        o = ground_obligation(oid, status == "ok", "; ".join(bad_first)[:900], f"{f}:{line}", kind="exc-ensures", definite=(status == "bad"))
+        o["vcs"] = len(lst)
         o["replay_hint"] = {"family": "propagate", "file": f.split("/")[-1], "function": q.split(".")[0]}
         obls.append(o)
     # every registered ZIP-container extractor is reached by the error
@@ -1356,9 +1427,9 @@ def propagation(repo, tier):
         why = f"extractor registry not readable ({type(e).__name__})"
     readers = sorted({q for (f, q) in bomb if q.startswith("read_")})
     missing = [f"{f.split('/')[-1]}::{q}" for (f, q) in expected if (f, q) not in bomb]
-    ok = not missing and (len(expected) >= 9 if not why else len(readers) >= 8) and len(obls) >= 15
+    ok = not missing and (len(expected) >= 9 if not why else len(readers) >= 8) and n_sites >= 20
     o = ground_obligation("C11/package/exc-ensures#every-zip-container-extractor-is-reached-by-the-zip-bomb-error", ok,
-                          (why + " " if why else "") + (f"not reached: {missing}; " if missing else "") + f"{len(obls)} call sites; extractors: {readers}",
+                          (why + " " if why else "") + (f"not reached: {missing}; " if missing else "") + f"{n_sites} call sites in {len(obls)} functions; extractors: {readers}",
                           "package", kind="exc-ensures", definite=False)
     o["replay_hint"] = {"family": "propagate"}
     obls.append(o)
